@@ -376,6 +376,24 @@ fn run_all(rep: &mut Report) {
     check_codec("MapMessage(typed i32)", true, &frames, &MapMessageDecoder::<i32, i32>::default,
         &|item: MapMessage<i32, i32>, out: &mut BytesMut| MapMessageEncoder::default().encode(item, out).is_ok(), rep);
 
+    // ---- TYPED lane requests / responses (what the agent's lanes read and write)
+    let frames: Vec<Vec<u8>> = [7i32, -12345, 0].iter().map(|n| enc(ValueLaneRequestEncoder::default(), LaneRequest::Command(*n)))
+        .chain([enc(ValueLaneRequestEncoder::default(), LaneRequest::<i32>::Sync(id)), enc(ValueLaneRequestEncoder::default(), LaneRequest::<i32>::InitComplete)]).collect();
+    check_codec("ValueLaneRequest(typed i32)", true, &frames, &ValueLaneRequestDecoder::<i32>::default, &no_reenc::<LaneRequest<i32>>, rep);
+    let frames: Vec<Vec<u8>> = msgs.iter().map(|m| enc(MapLaneRequestEncoder::default(), LaneRequest::Command(m.clone())))
+        .chain([enc(MapLaneRequestEncoder::default(), LaneRequest::<MapMessage<i32, i32>>::Sync(id)), enc(MapLaneRequestEncoder::default(), LaneRequest::<MapMessage<i32, i32>>::InitComplete)]).collect();
+    check_codec("MapLaneRequest(typed i32)", true, &frames, &MapLaneRequestDecoder::<i32, i32>::default, &no_reenc::<LaneRequest<MapMessage<i32, i32>>>, rep);
+    let frames: Vec<Vec<u8>> = [7i32, -9].iter().flat_map(|n| [enc(ValueLaneResponseEncoder::default(), LaneResponse::StandardEvent(*n)), enc(ValueLaneResponseEncoder::default(), LaneResponse::SyncEvent(id, *n))])
+        .chain([enc(ValueLaneResponseEncoder::default(), LaneResponse::<i32>::Initialized), enc(ValueLaneResponseEncoder::default(), LaneResponse::<i32>::Synced(id))]).collect();
+    check_codec("ValueLaneResponse(typed i32)", true, &frames, &ValueLaneResponseDecoder::<i32>::default, &no_reenc::<LaneResponse<i32>>, rep);
+    let frames: Vec<Vec<u8>> = ops.iter().take(4).flat_map(|op| [enc(MapLaneResponseEncoder::default(), LaneResponse::StandardEvent(op.clone())), enc(MapLaneResponseEncoder::default(), LaneResponse::SyncEvent(id, op.clone()))])
+        .chain([enc(MapLaneResponseEncoder::default(), MapLaneResponse::<i32, i32>::Synced(id))]).collect();
+    check_codec("MapLaneResponse(typed i32)", true, &frames, &MapLaneResponseDecoder::<i32, i32>::default, &no_reenc::<LaneResponse<MapOperation<i32, i32>>>, rep);
+    // ---- TYPED map downlink notifications (the body is a typed map message, bounded by the announced length)
+    let frames: Vec<Vec<u8>> = msgs.iter().map(|m| { let body = enc(MapMessageEncoder::default(), m.clone()); enc(DownlinkNotificationEncoder, DownlinkNotification::Event { body: body.as_slice() }) })
+        .chain([enc(DownlinkNotificationEncoder, DownlinkNotification::<&[u8]>::Linked), enc(DownlinkNotificationEncoder, DownlinkNotification::<&[u8]>::Synced), enc(DownlinkNotificationEncoder, DownlinkNotification::<&[u8]>::Unlinked)]).collect();
+    check_codec("DownlinkNotification(typed map messages)", true, &frames, &MapNotificationDecoder::<i32, i32>::default, &no_reenc::<DownlinkNotification<MapMessage<i32, i32>>>, rep);
+
     // ---- lane requests / responses (raw map)
     let frames: Vec<Vec<u8>> = map_messages().into_iter().take(8).map(|m| enc(RawMapLaneRequestEncoder::default(), LaneRequest::Command(m)))
         .chain([enc(RawMapLaneRequestEncoder::default(), LaneRequest::<MapMessage<&[u8], &[u8]>>::Sync(id)), enc(RawMapLaneRequestEncoder::default(), LaneRequest::<MapMessage<&[u8], &[u8]>>::InitComplete)]).collect();
@@ -504,7 +522,7 @@ fn codec_contract() {
     let _ = std::fs::remove_file(&progress);
     rep.evaluations += robust_evals;
     std::panic::set_hook(prev);
-    println!("BX-SAMPLE 16 codec pairs of swimos_agent_protocol; streams of 1 and 2 messages, every 2-chunk cut, every 3-chunk cut of streams <= 48 bytes, prefixes/tag/small byte corruptions");
+    println!("BX-SAMPLE 21 codec pairs of swimos_agent_protocol; streams of 1 and 2 messages, every 2-chunk cut, every 3-chunk cut of streams <= 48 bytes, prefixes/tag/small byte corruptions");
     let mut failed = false;
     let slug = |c: &str| c.replace(|ch: char| !ch.is_ascii_alphanumeric(), "_");
     for c in &rep.codecs {
